@@ -3,7 +3,6 @@
 package storage
 
 import (
-	"errors"
 	"fmt"
 	"math/rand"
 	"os"
@@ -84,29 +83,22 @@ func vc05Consumer(b *VerifC05Backend, scn *VerifC05Scn, r VerifC05Req) func() st
 		}
 	case "s2s": // s2s_vptoken.go validateS2SPresentationNonce
 		return func() string {
-			nonceError := st().Get(r.ID, new(bool))
-			res := "store-error"
-			if nonceError != nil && errors.Is(nonceError, ErrNotFound) {
-				res = "ok"
-			} else if nonceError == nil {
-				res = "used"
+			fresh, err := st().PutIfAbsent(r.ID, true)
+			if err != nil {
+				return "store-error"
 			}
-			if err := st().Put(r.ID, true); err != nil {
-				res = "store-error"
+			if !fresh {
+				return "used"
 			}
-			return res
+			return "ok"
 		}
 	case "jti": // dpop.go ValidateDPoPProof
 		return func() string {
-			var target struct{}
-			if err := st().Get(r.ID, &target); err != nil {
-				if !errors.Is(err, ErrNotFound) {
-					return "store-error"
-				}
-				if err := st().Put(r.ID, target); err != nil {
-					return "store-error"
-				}
-			} else {
+			fresh, err := st().PutIfAbsent(r.ID, struct{}{})
+			if err != nil {
+				return "store-error"
+			}
+			if !fresh {
 				return "used"
 			}
 			return "ok"
